@@ -188,6 +188,23 @@ def cfr_check(sk: Any, prov: Any, sel: Dict[str, int]) -> List[Problem]:
         root2 = with_shared_ids(root2)
     nodes2 = preorder(root2)
     inner = nodes2[sel["inner"] % len(nodes2)]
+    hist = sel.get("hist", 0)
+    if hist and kind(root2) != "eq":
+        # an earlier request through the same node, then the tree grows at the top through the public constructors
+        safe(lambda: inner.clone_from_root())
+        if hist == 1:
+            root2 = E.AddExpression(root2, E.ConstantExpression(11))
+        elif hist == 2:
+            root2 = E.MultiplyExpression(E.VariableExpression("q"), root2)
+        elif hist == 3:
+            root2 = E.NegateExpression(root2)
+        elif inner is not root2:
+            # a new top node takes over the operands of the old root (what a rewrite at the root does); the old root
+            # stays behind without a parent
+            if root2.left is not None and root2.right is not None:
+                root2 = E.AddExpression(root2.left, root2.right)
+            else:
+                root2 = E.NegateExpression(root2.left if root2.left is not None else root2.right)
     want2 = csig(root2)
     r, err = safe(lambda: inner.clone_from_root())
     if err is not None:
@@ -240,7 +257,7 @@ def worker(item: Any) -> Dict[str, Any]:
         if part_no == 1:
             sel.update(mut=ctx.choose(len(MUTATIONS), "mut"), side=ctx.choose(2, "side"), j=ctx.choose(n, "j"))
         elif part_no == 2:
-            sel.update(inner=ctx.choose(n, "inner"), dup=ctx.choose(2, "dup"))
+            sel.update(inner=ctx.choose(n, "inner"), dup=ctx.choose(2, "dup"), hist=ctx.choose(5, "hist"))
         info: Dict[str, Any] = {}
         roles = slot_roles(sk)
         if part_no != 0:
